@@ -722,9 +722,16 @@ Section Fold.
                  end in
       let st2 := match assoc x (s_dtype st1), assoc y (s_dtype st1) with
                  | None, Some d => set_dtype st1 x d
+                 | Some d, None => if identity_forwards_type then set_dtype st1 y d else st1
                  | _, _ => st1
                  end in
-      set_sym st2 y (SVal x)
+      let st3 := if identity_forwards_type then
+                   match assoc y (s_shape st2), assoc x (s_shape st2) with
+                   | None, Some sh => set_shape st2 y sh
+                   | _, _ => st2
+                   end
+                 else st2 in
+      set_sym st3 y (SVal x)
     | _, _ => st
     end.
 
